@@ -363,6 +363,7 @@ pub fn c09_main(ctx: &Ctx, repo_bin_dir: Option<String>) -> i32 {
             batch.clear();
         }
     }
+    totality_sweep(ctx);
     // macro and build-script front-ends on a sample of the clean definitions
     let clean: Vec<&GenIdl> = all_ok.iter().filter(|g| g.risky.is_none()).collect();
     front_ends(ctx, &root, &clean[..clean.len().min(ctx.tier.pick(6, 40))]);
@@ -370,6 +371,46 @@ pub fn c09_main(ctx: &Ctx, repo_bin_dir: Option<String>) -> i32 {
     rejection(ctx, &root, &mut rng, cli.as_deref());
     let _ = std::fs::remove_dir_all(&root);
     ctx.finish(ctx.tier.pick(60, 1000))
+}
+
+/// Totality alone, without rustc: many more definitions than can be compiled, nested up to 8
+/// anonymous levels, through generate() in process.  A panic or an error on a definition the
+/// parser accepts is a violation (the clean class only: no injected risky feature).
+fn totality_sweep(ctx: &Ctx) {
+    let n = ctx.tier.pick(4_000usize, 100_000usize);
+    let prev = std::panic::take_hook();
+    std::panic::set_hook(Box::new(|_| {}));
+    let nw = workers();
+    par(nw, |w| {
+        let mut rng = Rng::lane(ctx.seed, 9100 + w as u64);
+        let mut i = w;
+        while i < n && ctx.violations() < 5 {
+            let depth = 1 + i % 8;
+            let cfg = GenCfg { max_depth: depth, max_members: 4, max_fields: if depth > 4 { 2 } else { 4 }, keyword_fields: true, keyword_names: false, raw_forbidden: true, typerefs: true, comments: i % 3 == 0, finite: true };
+            let mut idl = gen_idl(&mut rng, &cfg);
+            idl.name = format!("org.verif.s{}", i);
+            let level = rng.below(3);
+            let text = render(&idl, &mut rng, level);
+            i += nw;
+            if varlink_parser::IDL::try_from(text.as_str()).is_err() {
+                continue;
+            }
+            ctx.case(Some(hash_of(&("sweep", &text))));
+            ctx.count("totality_sweep_definitions", 1);
+            let t = text.clone();
+            let r = std::panic::catch_unwind(move || {
+                let mut out: Vec<u8> = Vec::new();
+                varlink_generator::generate(&mut t.as_bytes(), &mut out, false).map_err(|e| e.to_string()).map(|_| out.len())
+            });
+            let wit = |m: String| json!({"engine": "c09", "front_end": "generate()", "definition": text, "risky_feature": Value::Null, "message": m});
+            match r {
+                Ok(Ok(len)) => ctx.count("totality_sweep_bytes_emitted", len as u64),
+                Ok(Err(e)) => ctx.violation("c09:generate-fails-on-valid-definition:no-risky-feature", wit(format!("generate() returned an error: {}", e))),
+                Err(p) => ctx.violation("c09:generate-panics:no-risky-feature", wit(format!("generate() panicked: {}", p.downcast_ref::<String>().cloned().or_else(|| p.downcast_ref::<&str>().map(|s| s.to_string())).unwrap_or_default()))),
+            }
+        }
+    });
+    std::panic::set_hook(prev);
 }
 
 fn classify_compile_error(g: &GenIdl, d: &Diag) -> String {
